@@ -16,22 +16,24 @@ import (
 )
 
 type Env struct {
-	S        *sim.Sim
-	Dirs     *gw.Dirs
-	Cfg      gw.Config
-	GWs      []*gw.Gateway
-	Sink     *gw.EventSink
-	FragRng  *rand.Rand
-	RouteRng *rand.Rand
-	FragMode int
-	Skew     time.Duration
-	evSeq    int64
-	Requests int
-	Panics   []PanicRec
-	Restarts int
-	Routed   map[int]int
+	S             *sim.Sim
+	Dirs          *gw.Dirs
+	Cfg           gw.Config
+	GWs           []*gw.Gateway
+	Sink          *gw.EventSink
+	reqDone       map[int64]int64
+	lastStart     int64
+	FragRng       *rand.Rand
+	RouteRng      *rand.Rand
+	FragMode      int
+	Skew          time.Duration
+	evSeq         int64
+	Requests      int
+	Panics        []PanicRec
+	Restarts      int
+	Routed        map[int]int
 	prevTransport http.RoundTripper
-	KeepBase bool
+	KeepBase      bool
 	// PendingFaults are bound to the next request task created by RoundTrip.
 	PendingFaults []sim.Fault
 	LastTaskID    int
@@ -69,6 +71,11 @@ func New(seed uint64, cfg gw.Config) (*Env, error) {
 	e.FragRng = sim.Rng(seed, "frag")
 	e.RouteRng = sim.Rng(seed, "route")
 	e.Sink = &gw.EventSink{S: e.S}
+	e.reqDone = map[int64]int64{}
+	e.Sink.Late = func(t *sim.Task) bool {
+		d, ok := e.reqDone[t.SpawnReq]
+		return ok && e.lastStart > d
+	}
 	e.prevTransport = http.DefaultTransport
 	http.DefaultTransport = e.Sink
 	n := cfg.Instances
@@ -137,29 +144,31 @@ func (e *Env) Route() int {
 func (e *Env) ClientNow() time.Time { return e.S.Now().Add(e.Skew) }
 
 type ConnOpts struct {
-	FragMode int   // -1 = env default
-	Frags    []int
-	CutAt    int // >=0: close after that many wire bytes
-	StallAt  int
-	StallFor time.Duration
-	ContentLength int // >=0 overrides the Content-Length header value
-	Marks    bool // register body marks for the split probe
-	Raw      []byte // if set, send these bytes instead of serialising
+	FragMode      int // -1 = env default
+	Frags         []int
+	CutAt         int // >=0: close after that many wire bytes
+	StallAt       int
+	StallFor      time.Duration
+	ContentLength int    // >=0 overrides the Content-Length header value
+	Marks         bool   // register body marks for the split probe
+	Raw           []byte // if set, send these bytes instead of serialising
 }
 
-func DefaultConn() *ConnOpts { return &ConnOpts{FragMode: -1, CutAt: -1, StallAt: -1, ContentLength: -1} }
+func DefaultConn() *ConnOpts {
+	return &ConnOpts{FragMode: -1, CutAt: -1, StallAt: -1, ContentLength: -1}
+}
 
 type Result struct {
-	Resp     *s3c.Resp
-	Serve    gw.ServeResult
-	Inv, Ret int64
-	GW       int
-	WireLen  int
-	Splits   int
-	Reads    int
+	Resp      *s3c.Resp
+	Serve     gw.ServeResult
+	Inv, Ret  int64
+	GW        int
+	WireLen   int
+	Splits    int
+	Reads     int
 	Delivered int
-	Method   string
-	Target   string
+	Method    string
+	Target    string
 }
 
 func (r *Result) Status() int {
@@ -212,6 +221,8 @@ func (e *Env) RoundTrip(g int, sg *s3c.Signed, co *ConnOpts) *Result {
 		}
 		e.evSeq++
 		res.Inv = e.evSeq
+		t.ReqID = res.Inv
+		e.lastStart = res.Inv
 		e.Requests++
 		e.Routed[g]++
 		e.S.Tracef("t%d REQ gw%d %s %s len=%d", t.ID, g, sg.Method, sg.Target, len(wire))
@@ -226,6 +237,7 @@ func (e *Env) RoundTrip(g int, sg *s3c.Signed, co *ConnOpts) *Result {
 		}
 		e.evSeq++
 		res.Ret = e.evSeq
+		e.reqDone[res.Inv] = res.Ret
 		e.S.Tracef("t%d RESP %d crashed=%v", t.ID, res.Resp.Status, res.Serve.Crashed)
 	}
 	if e.S.Cur() != nil {
